@@ -7,7 +7,7 @@ import (
 	yaml "gopkg.in/yaml.v2"
 )
 
-const c10Kinds = 12
+const c10Kinds = 15
 
 // c10Value returns a value of the k-th truthiness class with an arbitrary payload,
 // and whether the statement calls it truthy (everything except nil and false).
@@ -36,6 +36,12 @@ func c10Value(k int) (any, bool) {
 		return []any{nd.Int()}, true
 	case 10:
 		return yaml.MapSlice{}, true
+	case 12:
+		return []string(nil), true // a nil Go slice is an empty collection
+	case 13:
+		return map[string]any(nil), true
+	case 14:
+		return struct{ Tags []string }{}, true
 	default:
 		return nd.Uint8(), true
 	}
@@ -63,14 +69,18 @@ func VerifC10If() {
 	for i := 0; i < k; i++ {
 		v, truthy := c10Value(nd.Choice(c10Kinds))
 		b[names[i]] = v
+		mark := marks[i]
+		if nd.Choice(2) == 1 {
+			mark = "" // a selected branch with an empty body still ends the tag
+		}
 		if i == 0 {
-			src += "{% if " + names[i] + " %}" + marks[i]
+			src += "{% if " + names[i] + " %}" + mark
 		} else {
-			src += "{% elsif " + names[i] + " %}" + marks[i]
+			src += "{% elsif " + names[i] + " %}" + mark
 		}
 		if truthy && !found {
 			found = true
-			want = marks[i]
+			want = mark
 		}
 	}
 	if hasElse {
@@ -92,6 +102,8 @@ func VerifC10Lazy() {
 	nd.Assume(truthy)
 	out, err := vRender("{% if c %}A{% elsif z | divided_by: 0 %}B{% endif %}", Bindings{"c": v, "z": 1})
 	nd.Assert(err == nil && out == "A", "lazy-elsif-not-evaluated")
+	out, err = vRender("{% if c %}{% elsif z | divided_by: 0 %}B{% else %}C{% endif %}|{% unless n %}{% else %}B{{ z | divided_by: 0 }}{% endunless %}", Bindings{"c": v, "z": 1})
+	nd.Assert(err == nil && out == "|", "lazy-after-empty-selected-branch")
 	out, err = vRender("{% case c %}{% when c %}A{% when 1, z | divided_by: 0 %}B{% endcase %}", Bindings{"c": 5, "z": 1})
 	_ = out
 	_ = err
@@ -171,4 +183,49 @@ func VerifC10Nested() {
 	}
 	nd.Assert(out == one+one, "nested-reference")
 	nd.Reach("C10.nested")
+}
+
+// VerifC10CaseKinds: case compares by == whatever the values are — collections of the same Go type
+// (uncomparable with Go's own ==) included; it never fails, an array subject selects the clause
+// listing an element-wise equal array, and nil selects only nil.
+func VerifC10CaseKinds() {
+	x, y := nd.IntIn(0, 2), nd.IntIn(0, 2)
+	var s, w any
+	want := ""
+	k := nd.Choice(7)
+	switch k {
+	case 0:
+		s, w = []any{x, "s"}, []any{y, "s"}
+		if x == y {
+			want = "A"
+		} else {
+			want = "Z"
+		}
+	case 1:
+		s, w = []int{x}, []any{float64(y)}
+		if x == y {
+			want = "A"
+		} else {
+			want = "Z"
+		}
+	case 2:
+		s, w = map[string]any{"k": x}, map[string]any{"k": x}
+		want = "A"
+	case 3:
+		s, w = yaml.MapSlice{{Key: "k", Value: x}}, yaml.MapSlice{{Key: "k", Value: x}}
+		want = "A"
+	case 4:
+		s, w = nil, nil
+		want = "A"
+	case 5:
+		s, w = nil, false
+		want = "Z"
+	case 6:
+		s, w = []string(nil), []string{}
+		want = "A"
+	}
+	out, err := vRender("{% case s %}{% when 'q', w %}A{% else %}Z{% endcase %}", Bindings{"s": s, "w": w})
+	nd.Assert(err == nil, "case-kinds-no-error")
+	nd.Assert(out == want, "case-kinds-by-equality")
+	nd.Reach("C10.casekinds")
 }
